@@ -72,10 +72,13 @@ Proof. exact trim_fmt_any_order_no_open. Qed.
 Print Assumptions C20_trim_no_open.
 
 (* ---- StripRaw after Fmt: the literal pieces, whenever no text following a colour token
-   begins with a digit or a comma.  `colourish` = a colour name, a {fg,bg} pair, or {c}/{clear}
-   (whose code is the bare colour introducer \x03): with "colour token" read as the names of
-   fmtColors only the clause is false, Fmt("{c}5") = "\x035" strips to "" -
-   Proofs/FormatProofs.v strip_fmt_literal_reading_refuted. ---- *)
+   begins with a digit or a comma.  `colourish` = a colour name, a {fg,bg} pair, or {c}/{clear},
+   whose code is the bare colour introducer \x03.  With "colour token" read as the names of
+   fmtColors and pairs only, the clause is false - Fmt("{c}5") = "\x035" strips to ""
+   (C20_strip_fmt_literal_reading_refuted below) - and no implementation could satisfy it
+   together with the other clauses: Fmt must return "\x035" for "{c}5" (documented
+   sequences), and "\x035" is itself the colour sequence "colour 5", which StripRaw must
+   remove.  The reading with {c}/{clear} included is the satisfiable one. ---- *)
 
 Theorem C20_strip_fmt : forall ps,
   lits_ok (fun s => brace_free s /\ ctrl_free s) ps -> Forall known1 ps -> spaced colourish ps ->
